@@ -1,4 +1,20 @@
-# property id -> python module (in this package) that decides it
-REGISTRY = {
-    "C26": "c26",
-}
+"""Registry of property checks.  Every module checks/<name>.py declares
+
+    PROPS = ["C26"]                     # the property ids it decides
+    META  = {"C26": {"text": ..., "note": ..., "technique": ..., "design_ref": ...}}   # for MANIFEST.json
+    def run(c): ...                      # c is a vlib.Check; c.prop tells which property is asked for
+
+The registry is built by scanning the files (no import), so modules cannot break each other."""
+import glob
+import os
+import re
+
+REGISTRY = {}
+for _p in sorted(glob.glob(os.path.join(os.path.dirname(__file__), "*.py"))):
+    _n = os.path.basename(_p)[:-3]
+    if _n.startswith("_"):
+        continue
+    _m = re.search(r"^PROPS\s*=\s*\[([^\]]*)\]", open(_p).read(), re.M)
+    if _m:
+        for _id in re.findall(r"C\d+", _m.group(1)):
+            REGISTRY[_id] = _n
